@@ -79,6 +79,33 @@ func (p *slowProxy) handle(c net.Conn) {
 	c.Close()
 }
 
+// pause closes the proxy's listener (dials to it are refused) and every forwarded connection; resume listens again on the
+// same address.
+func (p *slowProxy) pause() {
+	p.ln.Close()
+	p.mu.Lock()
+	for _, c := range p.conns {
+		c.Close()
+	}
+	p.conns = nil
+	p.mu.Unlock()
+}
+
+func (p *slowProxy) resume() error {
+	addr := p.ln.Addr().String()
+	var err error
+	for try := 0; try < 100; try++ {
+		var ln net.Listener
+		if ln, err = net.Listen("tcp", addr); err == nil {
+			p.ln = ln
+			go p.serve()
+			return nil
+		}
+		time.Sleep(5 * time.Millisecond)
+	}
+	return err
+}
+
 func (p *slowProxy) close() {
 	p.ln.Close()
 	p.mu.Lock()
